@@ -390,7 +390,12 @@ pub fn key_case_coq(e: &EncParams, pw: &[u8], kind: u64, ok: Option<bool>, key: 
 /// the trailer dictionary as the reader will see it: classic trailer or the xref-stream dictionary
 pub fn find_trailer(bytes: &[u8], raws: &[(u32, u16, T)]) -> Option<T> {
     if let Some((_, _, t)) = raws.iter().rev().find(|(_, _, t)| matches!(t.get("Type"), Some(T::Name(n)) if n == b"XRef")) {
-        return Some(t.clone());
+        // only the dictionary matters for the trailer flags; the table data of a "modern" file is
+        // 6 MB (ids near 1 000 000) and must not travel into the case file
+        return Some(match t {
+            T::Stream(d, _) => T::Dict(d.clone()),
+            other => other.clone(),
+        });
     }
     scan_trailer(bytes)
 }
